@@ -8,7 +8,8 @@ From NT Require Import F2Z Lists Close TimeArray C01K Uniform.
 Import ListNotations.
 Open Scope Z_scope.
 
-Inductive action := AUt (a : ut_args) | ATs (a : ts_args).
+(* ATs: the shape of the data array handed to TimeSeries (any number of dimensions, time last) and the other arguments *)
+Inductive action := AUt (a : ut_args) | ATs (shape : list Z) (a : ts_args).
 
 Record axis_obs := mk_axis_obs {
   b_n : Z; b_first : option Z; b_last : option Z; b_diff_ok : bool;
@@ -40,7 +41,8 @@ Definition axis_res_ok (r : tres axis) (o : outcome) : bool :=
 Definition check (c : action * outcome) : bool :=
   match fst c with
   | AUt a => axis_res_ok (ut_new a) (snd c)
-  | ATs a =>
+  | ATs sh a0 =>
+      let a := with_shape sh a0 in
       match ts_new a, snd c with
       | TScope, _ => true
       | TErr e, OErr e' => err_eqb e e'
